@@ -31,7 +31,7 @@ def opsC08 : List (String × Handler) := [
     | _ => "bad-op"),
   ("tld.consts", fun
     | [_, d] => match parseTy d with
-      | some ty => if ty.wf then "ok wf" else "ok notwf"
+      | some ty => (if ty.wf then "ok wf " else "ok notwf ") ++ ty.show
       | none => "bad-op"
     | _ => "bad-op"),
   -- not compared: the constants of tl_decode_alloc / tl_decode_steps for a descriptor (used for the report)
